@@ -712,7 +712,7 @@ class UniNV:
         vb = ctx.int_("vol_base_wei", 0, 10 ** (db + 6))
         liq = ctx.int_("pool_liquidity", 10**10, 10**26)
         wb, wq = ctx.dec("wallet_base", 0, 10**6), ctx.dec("wallet_quote", 0, 10**9)
-        self.s = Side(ctx, p.get("t0q", True), dq, db, p["tick"], p.get("fee", 0.05), (vq, vb), liq, wb, wq)
+        self.s = Side(ctx, p.get("t0q", True), dq, db, p["tick"], p.get("fee", 0.05), (vq, vb), liq, wb, wq, names=("USDC", "WETH"))  # real token names: a stable-coin quote token next to a USD account
         self.m, self.broker = self.s.m, self.s.broker
         self.Q, self.B = self.s.Q, self.s.B
         self._w0 = (wb, wq)
